@@ -183,6 +183,21 @@ func (i *ignore) TeardownBlockStatement(meta *ast.Meta) {
 	}
 }
 
+// Comments placed in front of a clause keyword (case, default, else if, else) or the closing brace of
+// switch statement do not belong to a statement which is linted with setup and teardown.
+// They accept falco-ignore-start and falco-ignore-end, otherwise the range is not closed there
+// and leaks to the following statements.
+func (i *ignore) SetupClause(comments ast.Comments) {
+	for _, c := range comments {
+		switch ignoreType, rules := parseIgnoreComment(c.String()); ignoreType {
+		case falcoIgnoreStart:
+			ignoreRules(&i.ignoreRange, rules)
+		case falcoIgnoreEnd:
+			unignoreRules(&i.ignoreRange, rules)
+		}
+	}
+}
+
 func (i *ignore) IsEnable(rule Rule) bool {
 	return i.ignoreNextLine.all ||
 		i.ignoreThisLine.all ||
